@@ -119,9 +119,9 @@ def unitssystem_from_dict(d) :
         )
 
     return UnitsSystem(
-        space    = d["space"],
-        time     = d["time"],
-        quantity = d["quantity"]
+        space    = d.get("space",    _default_units_system_dict["space"]),
+        time     = d.get("time",     _default_units_system_dict["time"]),
+        quantity = d.get("quantity", _default_units_system_dict["quantity"])
         )
 
 def unitsdimensions_from_dict(d) :
